@@ -144,7 +144,7 @@ func checkReplyModel(r *Result, o replyOpts) []Violation {
 				continue
 			}
 			if ri >= len(reps) {
-				if o.wantAll && !ended {
+				if o.wantAll && !ended && r.Outcome == 0 { // only a run that became quiescent has had its chance to answer
 					bad("missing_reply", fmt.Sprintf("conn %d: message id=%#04x serial=%d got no reply (%d replies written for it and later requests)", ci, q.ID, q.Ser, len(reps)-ri), q.Step)
 					return vs
 				}
@@ -253,6 +253,7 @@ func checkCallbacks(r *Result, ci int, prop string, _ int) *Violation {
 		return &Violation{Prop: prop, Rule: prop + "." + rule, Sig: prop + "." + rule, Msg: msg, Step: step}
 	}
 	frames := r.Plan.Expect.Frames[ci]
+	settled := r.Outcome == 0 // counts are final only in a run that became quiescent
 	// expected handled messages: unfragmented handled frames in order; completed transfers are checked by count
 	var wantPlain []SentFrame
 	for _, f := range frames {
@@ -316,10 +317,10 @@ func checkCallbacks(r *Result, ci int, prop string, _ int) *Violation {
 				gotC++
 			}
 		}
-		if gotC > wantC || (!ended && gotC != wantC) {
+		if gotC > wantC || (!ended && settled && gotC != wantC) {
 			return mk("complete_callback_count", fmt.Sprintf("conn %d: %s read callback reported %d completed sub-packaged messages, %d transfers were fully delivered", ci, who, gotC, wantC), 0)
 		}
-		if !ended && len(got) != wantN {
+		if !ended && settled && len(got) != wantN {
 			return mk("read_callback_count", fmt.Sprintf("conn %d: %s read callback ran %d times for %d handled unfragmented messages", ci, who, len(got), wantN), 0)
 		}
 		// write callbacks: one per reply, with the bytes on the socket, after the write
@@ -351,7 +352,7 @@ func checkCallbacks(r *Result, ci int, prop string, _ int) *Violation {
 				return mk("write_callback_before_write", fmt.Sprintf("conn %d: %s write callback #%d at step %d precedes the write at step %d", ci, who, k, e.Step, sw[k].Step), e.Step)
 			}
 		}
-		if !ended && len(wcb) != len(sw) {
+		if !ended && settled && len(wcb) != len(sw) {
 			return mk("write_callback_count", fmt.Sprintf("conn %d: %s write callback ran %d times for %d replies written", ci, who, len(wcb), len(sw)), 0)
 		}
 	}
@@ -451,6 +452,9 @@ func genC06(seed uint64, tier string, idx int) *Plan {
 				continue
 			}
 			body := g.wellFormedBody(id, v19, p.Conns[ci].Phone)
+			if id == 0x0100 && g.r.chance(10) {
+				body = body[:g.r.intn(len(body))] // a register body shorter than its layout is answered all the same
+			}
 			if id == 0x0102 && v19 && g.r.chance(20) {
 				// the case the property names: a 2019-layout 0x0102 too short for its fixed fields is logged and not
 				// answered - and must leave no trace in what follows (numbering, order)
